@@ -319,6 +319,8 @@ def defer(ctx, out, cells, note):
     if not cells or any(r is None or r.status != "ok" for r in cells):
         return out
     for r in out:
+        if r.status == "violation" and "witness_value" in (r.detail or {}):
+            continue   # an interval / accept-set violation names a value and a path: a positive reason the finite cells cannot overrule
         if r.status != "ok":
             r.detail = dict(r.detail or {}, structural_reading=r.msg[:300])
             r.status, r.msg = "ok", note
